@@ -1,2 +1,314 @@
+"""C12 structural rules R2-R4: reader/writer letter tables, one square-indexing convention, 4-field defaults."""
+import json
+from ..cfg import Cfg
+from ..expr import Exprs, PathEval, Inliner, fold, Unfoldable, show, leaves
+from ..paths import returning_paths, NotLoopFree
+from .. import geometry as G
+
+B = "inkayaku_board::board::"
+C = "inkayaku_core::constants::"
+PS = B + "PlayerState::"
+
+
+def jval(t):
+    """python value of a constant tree holding a struct (hashed json)"""
+    if t[0] == "c" and isinstance(t[1], tuple) and t[1] and t[1][0] == "json":
+        return json.loads(t[1][1])
+    return None
+
+
+def r2_tables(ctx):
+    rid = "C12.R2"
+    ctx.rule(rid, "FEN reader and writer use the same letter <-> piece / colour / castling-right / side tables", floor=25)
+    prog = ctx.prog
+    pieces = {c["value"]["index"]: c["value"] for k, c in prog.consts.items() if k.startswith(C + "piece::Piece::") and isinstance(c["value"], dict) and "fen" in c["value"]}
+    if len(pieces) != 6:
+        ctx.lost(rid, "six Piece constants")
+        return
+    # ---- reader: placement letters
+    f = ctx.fn(rid, B + "<Fen as FenParseExt>::parse_player_states::{closure#0}")
+    cfg, ex = Cfg(f), Exprs(f)
+    inl = Inliner(prog, only=lambda k: k.startswith(PS))
+    sw = None
+    for b in sorted(cfg.reach):
+        t = f["blocks"][b]["term"]
+        if t["k"] == "switch" and len(t["targets"]) >= 6:
+            d = ex.operand(t["discr"])
+            if d[0] == "call" and d[1].endswith("to_ascii_lowercase"):
+                sw = (b, t)
+    if sw is None:
+        ctx.lost(rid, "match on the lower-cased placement character")
+        return
+    letters = {}
+    for v, tb in sw[1]["targets"]:
+        t = f["blocks"][tb]["term"]
+        k_occ = None
+        if t["k"] == "call" and (t["callee"].get("key") or "").startswith(PS) and t["callee"]["key"].endswith("_ref"):
+            sm = inl.summary(t["callee"]["key"])
+            if sm is not None:
+                for x in leaves(sm):
+                    if x[0] == "idx" and x[1][0] == "f" and x[1][2] == "occupancy":
+                        try:
+                            k_occ = fold(x[2])
+                        except Unfoldable:
+                            pass
+        letters[chr(v)] = k_occ
+    for ch, k in sorted(letters.items()):
+        ok = k in pieces and pieces[k]["fen"] == ch
+        ctx.ob(rid, "reader|letter-%s" % ch, ok, "" if ok else "the FEN reader puts '%s' into occupancy[%s]; the piece with that index is written as '%s'" % (ch, k, pieces.get(k, {}).get("fen")),
+               ctx.where(f, sw[1]["line"]), sample={"letter": ch, "occupancy_index": k, "piece": pieces.get(k, {}).get("name")})
+    ok = sorted(letters) == sorted(p["fen"] for p in pieces.values())
+    ctx.ob(rid, "reader|six-letters", ok, "" if ok else "placement letters handled: %s" % sorted(letters), ctx.where(f))
+    # upper case -> white
+    up = None
+    for b in sorted(cfg.reach):
+        t = f["blocks"][b]["term"]
+        if t["k"] == "switch":
+            d = ex.operand(t["discr"])
+            if d[0] == "call" and d[1].endswith("is_uppercase"):
+                arms = {}
+                for name, blk in (("upper", t["otherwise"]), ("lower", t["targets"][0][1])):
+                    for s in f["blocks"][blk]["stmts"]:
+                        for a in s["rv"].get("a", []):
+                            if a.get("k") in ("copy", "move"):
+                                nm = [e["name"] for e in a["pl"]["p"] if isinstance(e, dict) and "f" in e]
+                                if nm:
+                                    arms[name] = nm[-1]
+                up = arms
+    ok = up is not None and "white" in str(up.get("upper")) and "black" in str(up.get("lower"))
+    ctx.ob(rid, "reader|uppercase-is-white", ok, "" if ok else "upper/lower case select %s" % up, ctx.where(f), sample={"case_to_player": up})
+    # ---- writer: ColoredPiece table
+    vals = prog.const_value(C + "colored_piece::ColoredPiece::VALUES")
+    g = ctx.fn(rid, C + "colored_piece::ColoredPiece::idx")
+    try:
+        gp = returning_paths(g)
+    except NotLoopFree:
+        gp = []
+    if not isinstance(vals, list) or len(vals) != 12 or len(gp) != 1:
+        ctx.lost(rid, "ColoredPiece::VALUES / idx")
+        return
+    for colour in (0, 1):
+        for k, p in sorted(pieces.items()):
+            try:
+                i = fold(gp[0].ret(), {("param", 1): colour, ("param", 2): k})
+            except Unfoldable:
+                i = None
+            e = vals[i] if i is not None and 0 <= i < 12 else None
+            want = p["fen"].upper() if colour == 0 else p["fen"]
+            ok = e is not None and e["color"]["index"] == colour and e["piece"]["index"] == k and e["fen"] == want
+            ctx.ob(rid, "writer|colour%d-piece%d" % (colour, k), ok,
+                   "" if ok else "the FEN writer renders (colour %d, %s) through VALUES[%s] = %s; the reader expects '%s'" % (colour, p["name"], i, e and (e["name"], e["fen"]), want),
+                   ctx.where(g), sample={"colour": colour, "piece": p["name"], "written_as": e and e["fen"]})
+    # to_white / to_black pass colour 0 / 1
+    for nm, col in (("to_white", 0), ("to_black", 1)):
+        h = ctx.fn(rid, C + "piece::Piece::" + nm)
+        try:
+            hp = returning_paths(h)
+            t = hp[0].ret()
+            a = t[2]
+            cv = fold(a[0])
+            ok = t[0] == "call" and t[1].endswith("from_indices_unchecked") and cv == col and any(x[0] == "f" and x[2] == "index" for x in leaves(a[1]))
+        except (NotLoopFree, Unfoldable, IndexError):
+            ok = False
+        ctx.ob(rid, "writer|%s" % nm, ok, "" if ok else "Piece::%s does not build the coloured piece of colour %d" % (nm, col), ctx.where(h))
+    gc = ctx.fn(rid, B + "Bitboard::get_colored_piece")
+    try:
+        ok = False
+        sides = {}
+        for pe in returning_paths(gc):
+            r = pe.ret()
+            for x in leaves(r):
+                if x[0] == "call" and x[1].endswith("Piece::to_white"):
+                    src = [y for y in leaves(x) if y[0] == "call" and y[1].endswith("find_piece_struct_by_square_mask")]
+                    sides["to_white"] = [z[2] for y in src for z in leaves(y[2][0]) if z[0] == "f" and z[2] in ("white", "black")]
+                if x[0] == "call" and x[1].endswith("Piece::to_black"):
+                    src = [y for y in leaves(x) if y[0] == "call" and y[1].endswith("find_piece_struct_by_square_mask")]
+                    sides["to_black"] = [z[2] for y in src for z in leaves(y[2][0]) if z[0] == "f" and z[2] in ("white", "black")]
+        ok = sides.get("to_white") == ["white"] and sides.get("to_black") == ["black"]
+    except NotLoopFree:
+        sides, ok = None, False
+    ctx.ob(rid, "writer|player-to-colour", ok, "" if ok else "get_colored_piece maps players to colours as %s" % sides, ctx.where(gc), sample={"mapping": sides})
+    # ---- castling letters
+    rd = ctx.fn(rid, B + "<Fen as FenParseExt>::parse_player_states")
+    rcfg, rex = Cfg(rd), Exprs(rd)
+    reader_c = {}
+    for b in sorted(rcfg.reach):
+        for s in rd["blocks"][b]["stmts"]:
+            d = s["dst"]
+            if d is not None and d["p"] and isinstance(d["p"][-1], dict) and d["p"][-1].get("name", "").endswith("_castle"):
+                v = rex.rvalue(s["rv"])
+                ch = [x[1] for x in leaves(v) if x[0] == "c" and x[2] == "char"]
+                owner = rd.get("names", {}).get(str(d["l"]))
+                reader_c[(owner, d["p"][-1]["name"])] = ch[0] if ch else None
+    wr = ctx.fn(rid, B + "<Fen as From<&Bitboard>>::from")
+    wcfg, wex = Cfg(wr), Exprs(wr)
+    writer_c = {}
+    for b in sorted(wcfg.reach):
+        for s in wr["blocks"][b]["stmts"]:
+            rv = s["rv"]
+            if rv["op"] == "agg" and rv["kind"] == "tuple" and len(rv["a"]) == 2 and rv["a"][0].get("k") == "const" and rv["a"][0].get("ty") == "char":
+                fl = wex.operand(rv["a"][1])
+                if fl[0] == "f" and fl[2].endswith("_castle") and fl[1][0] == "f":
+                    writer_c[(fl[1][2], fl[2])] = rv["a"][0]["v"]
+    want = {("white", "king_side_castle"): "K", ("white", "queen_side_castle"): "Q", ("black", "king_side_castle"): "k", ("black", "queen_side_castle"): "q"}
+    ok = reader_c == writer_c == want
+    ctx.ob(rid, "castling-letters", ok, "" if ok else "castling letters: reader %s, writer %s" % (reader_c, writer_c), ctx.where(rd), sample={"reader": {"%s.%s" % k: v for k, v in reader_c.items()}, "writer": {"%s.%s" % k: v for k, v in writer_c.items()}})
+    # order of the castling letters written: KQkq
+    order = [v for k, v in sorted(writer_c.items(), key=lambda kv: 0)]
+    # ---- side to move
+    pt = ctx.fn(rid, B + "<Fen as FenParseExt>::parse_turn")
+    from .c15_struct import str_match_arms
+    pcfg, pex = Cfg(pt), Exprs(pt)
+    arms = str_match_arms(pt, pcfg, pex)
+    consts = {"WHITE": prog.const_value(B + "constants::WHITE"), "BLACK": prog.const_value(B + "constants::BLACK")}
+    rside = {}
+    for kw, eqb, head, _ in arms:
+        for s in pt["blocks"][head]["stmts"]:
+            if s["dst"] is not None and s["dst"]["l"] == 0 and s["rv"]["op"] == "use" and s["rv"]["a"][0].get("k") == "const":
+                rside[kw] = s["rv"]["a"][0]["v"]
+    wside = {}
+    for b in sorted(wcfg.reach):
+        t = wr["blocks"][b]["term"]
+        if t["k"] == "switch":
+            d = wex.operand(t["discr"])
+            if d[0] == "call" and d[1] == B + "Bitboard::is_white_turn":
+                for nm, blk in (("white", t["otherwise"]), ("black", t["targets"][0][1])):
+                    for s in wr["blocks"][blk]["stmts"]:
+                        if s["rv"]["op"] == "use" and s["rv"]["a"][0].get("k") == "const" and s["rv"]["a"][0].get("ty") == "char":
+                            wside[nm] = s["rv"]["a"][0]["v"]
+    ok = rside == {"w": consts["WHITE"], "b": consts["BLACK"]} and wside == {"white": "w", "black": "b"}
+    ctx.ob(rid, "side-letters", ok, "" if ok else "side to move: reader %s, writer %s" % (rside, wside), ctx.where(pt), sample={"reader": rside, "writer": wside})
+
+
+def r3_squares(ctx):
+    rid = "C12.R3"
+    ctx.rule(rid, "one square-indexing convention: 64 Square constants self-consistent, from_index(i) returns square i, reader and writer index by (file, rank) in the same order, e.p. reader computes file = c0 - 'a', rank = 8 - digit", floor=130)
+    prog = ctx.prog
+    vals = prog.const_value(C + "square::Square::VALUES")
+    if not isinstance(vals, list) or len(vals) != 64:
+        ctx.lost(rid, "Square::VALUES")
+        return
+    c0 = prog.consts[C + "square::Square::VALUES"]
+    for i, s in enumerate(vals):
+        fi, ri = s["file"]["index"], s["rank"]["index"]
+        ok = s["shift"] == i and s["shift"] == fi + 8 * ri and s["mask"] == 1 << i and s["fen"] == chr(ord("a") + fi) + chr(ord("8") - ri) \
+            and s["file"]["fen"] == chr(ord("a") + fi) and s["rank"]["fen"] == chr(ord("8") - ri)
+        ctx.ob(rid, "square-const|%d" % i, ok, "" if ok else "Square::VALUES[%d] = %s is inconsistent (expected shift %d = file + 8*rank, mask 1<<shift, name file letter + rank digit)" % (i, s, i),
+               "%s:%d" % (c0["file"], c0["line"]), sample={"index": i, "square": s["fen"]} if i == 36 else None)
+    f = ctx.fn(rid, C + "square::Square::from_index")
+    try:
+        pes = returning_paths(f)
+    except (NotLoopFree, OverflowError):
+        ctx.lost(rid, "Square::from_index paths")
+        return
+    by_val = {}
+    for pe in pes:
+        r = pe.ret()
+        for (d, c, b, ty) in pe.conds:
+            if d == ("param", 1) and c[0] == "in":
+                for v in c[1]:
+                    by_val[v] = r
+    for i in range(64):
+        r = by_val.get(i)
+        got = jval(r[3][0]) if r is not None and r[0] == "agg" and r[2].endswith("Option::Some") and r[3] else None
+        ok = got is not None and got["shift"] == i
+        ctx.ob(rid, "from_index|%d" % i, ok, "" if ok else "Square::from_index(%d) returns %s" % (i, got and got["fen"]), ctx.where(f))
+    # reader and writer reach to_square_index_from_indices with (file, rank)
+    tsi = ctx.fn(rid, C + "to_square_index_from_indices")
+    try:
+        t = returning_paths(tsi)[0].ret()
+        ok = t[0] == "bin" and t[1] == "Add" and ("param", 1) in (t[2], t[3]) and any(x[0] == "bin" and x[1] == "Mul" and ("param", 2) in (x[2], x[3]) and any(y[0] == "c" and y[1] == 8 for y in (x[2], x[3])) for x in (t[2], t[3]))
+    except (NotLoopFree, IndexError):
+        ok = False
+    ctx.ob(rid, "index=file+8*rank", ok, "" if ok else "to_square_index_from_indices is not file + 8 * rank", ctx.where(tsi))
+    inl = Inliner(prog, only=lambda k: k in (B + "constants::square_mask_from_index", B + "constants::square_shift_from_index"))
+    rd = ctx.fn(rid, B + "<Fen as FenParseExt>::parse_player_states::{closure#0}")
+    rex = Exprs(rd)
+    ok = False
+    for b in rd["blocks"]:
+        t = b["term"]
+        if t["k"] == "call" and t["callee"].get("key") == B + "constants::square_mask_from_index":
+            a0, a1 = rex.operand(t["args"][0]), rex.operand(t["args"][1])
+            # file counter is the local updated by digits; rank index is the closure's enumerate index
+            rank_ok = any(x == ("f", ("param", 2), "0") for x in leaves(a1))
+            ok = rank_ok and a0[0] == "local"
+    ctx.ob(rid, "reader|(file, rank)-order", ok, "" if ok else "the placement reader does not call square_mask_from_index(file counter, rank index)", ctx.where(rd))
+    sm = ctx.fn(rid, B + "constants::square_shift_from_index")
+    try:
+        t = returning_paths(sm)[0].ret()
+        core = t[2] if t[0] == "cast" else t
+        ok = core[0] == "call" and core[1] == C + "to_square_index_from_indices" and [x for x in leaves(core[2][0]) if x[0] == "param"] == [("param", 1)] and [x for x in leaves(core[2][1]) if x[0] == "param"] == [("param", 2)]
+    except (NotLoopFree, IndexError):
+        ok = False
+    ctx.ob(rid, "reader|square_shift_from_index-passes-(file, rank)", ok, "" if ok else "square_shift_from_index swaps or alters its arguments", ctx.where(sm))
+    fi = ctx.fn(rid, C + "square::Square::from_indices")
+    ok = False
+    try:
+        for pe in returning_paths(fi):
+            for x in leaves(pe.ret()):
+                if x[0] == "call" and x[1] == C + "to_square_index_from_indices":
+                    ok = x[2] == (("param", 1), ("param", 2))
+    except NotLoopFree:
+        pass
+    ctx.ob(rid, "writer|from_indices-passes-(file, rank)", ok, "" if ok else "Square::from_indices swaps or alters its arguments", ctx.where(fi))
+    wr = ctx.fn(rid, B + "<Fen as From<&Bitboard>>::from")
+    wex = Exprs(wr)
+    wcfg = Cfg(wr)
+    ok = False
+    for b in sorted(wcfg.reach):
+        t = wr["blocks"][b]["term"]
+        if t["k"] == "call" and t["callee"].get("key") == C + "square::Square::from_indices":
+            a0, a1 = wex.operand(t["args"][0]), wex.operand(t["args"][1])
+            # the inner loop variable is the file, the outer the rank: the block of the inner loop's next() is inside the outer loop
+            def loop_var_block(tr):
+                for x in leaves(tr):
+                    if x[0] == "call" and x[1].endswith("Iterator>::next"):
+                        it = x[2][0]
+                        while it[0] in ("&", "*"):
+                            it = it[1]
+                        return it
+                return None
+            i0, i1 = loop_var_block(a0), loop_var_block(a1)
+            # outer iterator is created before the inner one: compare defining blocks by dominance
+            if i0 and i1 and i0[0] == "local" and i1[0] == "local":
+                d0 = wex.defs.get(i0[1], [None])[0]
+                d1 = wex.defs.get(i1[1], [None])[0]
+                if d0 and d1:
+                    ok = wcfg.dominates(d1[1], d0[1]) and d0[1] != d1[1]   # rank iterator (arg1) created first = outer loop
+    ctx.ob(rid, "writer|(file, rank)-order", ok, "" if ok else "the FEN writer does not call Square::from_indices(inner-loop file, outer-loop rank)", ctx.where(wr))
+    # e.p. square reader
+    ep = ctx.fn(rid, B + "constants::square_shift_from_fen_unchecked")
+    eex = Exprs(ep)
+    ok = False
+    for b in ep["blocks"]:
+        t = b["term"]
+        if t["k"] == "call" and t["callee"].get("key") == B + "constants::square_shift_from_index":
+            a0, a1 = eex.operand(t["args"][0]), eex.operand(t["args"][1])
+            file_ok = any(x[0] == "bin" and x[1] == "Sub" and any(y[0] == "c" and y[1] == 97 for y in (x[3],)) for x in leaves(a0))
+            rank_ok = any(x[0] == "bin" and x[1] == "Sub" and x[2][0] == "c" and x[2][1] == 8 and any(y[0] == "call" and y[1].endswith("to_digit") for y in leaves(x[3])) for x in leaves(a1))
+            ok = file_ok and rank_ok
+    ctx.ob(rid, "ep-reader|file=c0-'a',rank=8-digit", ok, "" if ok else "the e.p. square reader does not compute (first char - 'a', 8 - digit)", ctx.where(ep))
+
+
+def r4_defaults(ctx):
+    rid = "C12.R4"
+    ctx.rule(rid, "a 4-field FEN defaults the half-move clock to \"0\" and the full-move number to \"1\"", floor=2)
+    for nm, want in (("get_halfmove_clock", "0"), ("get_fullmove_clock", "1")):
+        f = ctx.fn(rid, "inkayaku_core::fen::Fen::" + nm)
+        ex = Exprs(f)
+        got = None
+        fld = None
+        for b in f["blocks"]:
+            t = b["term"]
+            if t["k"] == "call" and (t["callee"].get("key") or "").endswith("Option::map_or"):
+                a = [ex.operand(x) for x in t["args"]]
+                got = a[1][1] if a[1][0] == "c" else None
+                fld = [x[2] for x in leaves(a[0]) if x[0] == "f"]
+        ok = got == want and fld and fld[-1] == nm[4:]
+        ctx.ob(rid, nm, bool(ok), "" if ok else "%s defaults to %r over field %s (expected %r over %s)" % (nm, got, fld, want, nm[4:]), ctx.where(f), sample={"getter": nm, "default": got})
+
+
 def run(ctx):
-    pass
+    r2_tables(ctx)
+    r3_squares(ctx)
+    r4_defaults(ctx)
